@@ -14,4 +14,8 @@ EXTRA = {
     "C19_w6_seed_1": ["C05", "C06"],
     # restarts of time-reversed runs (C08 extended in session 3)
     "C10_w4_seed_2": ["C08"], "C10_w6_seed_3": ["C08"],
+    # wave 7
+    "C01_w7_seed_1": ["C03"], "C05_w7_seed_3": ["C07"], "C06_w7_seed_3": ["C19"], "C09_w7_seed_2": ["C19", "C14"], "C09_w7_seed_3": ["C18"],
+    "C11_w7_seed_3": ["C19", "C14"], "C12_w7_seed_3": ["C02"], "C14_w7_seed_2": ["C19"], "C15_w7_seed_2": ["C19", "C14"], "C15_w7_seed_3": ["C02"],
+    "C17_w7_seed_2": ["C16"], "C19_w7_seed_1": ["C18"], "C02_w7_seed_2": ["C14"], "C02_w7_seed_3": ["C14"], "C04_w7_seed_3": ["C16"], "C18_w7_seed_1": ["C14", "C19"],
 }
